@@ -145,6 +145,39 @@ def copy_case(src_kind, dst_kind, later, via_link=False):
     return h
 
 
+def copy_scale_case(shape):
+    """One concrete large source (beyond any chunk size a copy loop may use): a single
+    block whose data ends in / contains long runs of zero bytes, as idle channels produce.
+    The copy must have the source's length and bytes.  Executed through the file model on
+    concrete bytes - a scale instance, not a solver claim."""
+    def h(I):
+        def P(label, cond, note=""):
+            return I.prove(f"C17.{label}", cond, note)
+        fs = I.fs()
+        Tdf = I.mod("basictdf").Tdf
+        Z = 65536
+        pay = {"zero_tail": bytes([1]) * 1000 + bytes(3 * Z), "zero_middle": bytes([1]) * 700 + bytes(3 * Z) + bytes([2]) * 300,
+               "zero_tail_aligned": bytes([7]) * (Z - 64 - 288) + bytes(2 * Z)}[shape]
+        spec = {"n": 1, "version": 1, "hdates": [0, 0, 0],
+                "slots": [{"type": 14, "format": 1, "size": len(pay), "dates": [0, 0, 0], "comment": "big", "payload": pay}]}
+        fs.create("s.tdf", spec)
+        spre = fs.obs("s.tdf")
+        try:
+            Tdf(fs.path("s.tdf")).copy(fs.path("d.tdf"))
+            exc = None
+        except Exception as e:  # noqa: BLE001
+            exc = e
+        P("copy_succeeds_on_absent_target", exc is None, f"{type(exc).__name__ if exc else ''}")
+        if exc is None:
+            d = fs.obs("d.tdf")
+            P("copy_has_the_length_of_the_source", d.length == spre.length, f"{d.length} vs {spre.length}")
+            n = min(int(d.length), int(spre.length))
+            P("copy_has_the_bytes_of_the_source", bytes(d.range(0, n)) == bytes(spre.range(0, n)))
+        P("no_handle_left_open", fs.open_handles() == 0)
+        I.goal("done")
+    return h
+
+
 def copy_inside_context_case(src_kind, how):
     """copy() taken while the source is inside its own write context; the returned object
     is then used (directly, or through a context of its own) while that context is still
@@ -318,6 +351,8 @@ def instances(tier):
             out.append(Instance(f"copy.{s}.to.{d}", copy_case(s, d, None), goals=["absent" if d == "absent" else "exists"]))
         for later in ("mutate_copy", "mutate_source"):
             out.append(Instance(f"copy.{s}.then.{later}", copy_case(s, "absent", later), goals=["absent"]))
+    for shape in ("zero_tail", "zero_middle", "zero_tail_aligned"):
+        out.append(Instance(f"copy.scale.{shape}", copy_scale_case(shape), goals=["done"]))
     for s in (["tdf21"] if q else ["tdf21", "tdf32"]):
         for how in ("direct_add", "direct_remove", "own_context"):
             out.append(Instance(f"copy.{s}.inside_write_context.{how}", copy_inside_context_case(s, how), goals=["done"]))
